@@ -45,8 +45,21 @@ def pumpToken (ps : PS GW) (tok : String) : Option (PS GW) :=
   | "O" :: cmd :: args => (parseOp cmd args).map fun op => ctlStep ps op
   | _ => none
 
+/-- event tokens: `L` connection_lost, `M` connection_made, anything else a hex chunk -/
+def parseConnEv (tok : String) : Option ConnEv :=
+  if tok == "L" then some .lost
+  else if tok == "M" then some .made
+  else (parseHexBytes tok).map .data
+
+def showRawLines (ls : List Str) : String := showPackets (ls.map fun l => l.map Char.toNat)
+
 def framingCmd (cmd : String) (args : List String) : Option String :=
   match cmd, args with
+  | "EVENTS", toks => do
+    let evs ← toks.mapM parseConnEv
+    let k := feedEvents true rawDec {} evs
+    let d := feedEvents false rawDec {} evs
+    some s!"kbuf={showHex k.1.buffer} klines={showRawLines k.2} dbuf={showHex d.1.buffer} dlines={showRawLines d.2}"
   | "FRAME", chunks => do
     let cs ← chunks.mapM parseHexBytes
     let r := feedRaw [] cs
